@@ -297,11 +297,17 @@ func RunPipe(t *testing.T, sc *Scenario, capture bool, record bool) *PipeResult 
 	if res.Err != nil {
 		res.ErrText = res.Err.Error()
 	}
+	Beat()
 	// determinism self-test: fold everything observable of this execution
 	RunLogHash = (RunLogHash ^ res.Hash ^ hash64(res.ErrText) ^ hash64(res.Log)*3 ^ hash64(res.Out)*5 ^
 		uint64(res.FS.Closes)<<40 ^ uint64(res.FS.Reads)<<20 ^ uint64(res.Steps) ^ hash64(res.ExitPanic)*7 ^ hash64(fmt.Sprint(res.Choices))*11) * 1099511628211
 	return res
 }
+
+// Beat tells the supervising parent that the worker is alive: it is called whenever a call
+// into bcl has returned, so a stall of the journal means that a single call into bcl
+// neither returned nor reached quiescence - not that a run is long.
+var Beat = func() {}
 
 // RunLogHash accumulates, per run, a hash over the event logs and observable
 // results of every pipeline execution; the worker resets it before each run.
@@ -412,6 +418,7 @@ func ParseMem(src []byte, name string, opts int) *MemResult {
 		r.ErrText = r.Err.Error()
 	}
 	r.Log, r.Out = logw.String(), outw.String()
+	Beat()
 	return r
 }
 
